@@ -348,6 +348,94 @@ def r6_literal_text(ctx):
     return r
 
 
+def r7_formatter_pipeline(ctx):
+    """for each formatter family the view, display and fmt entry points must hand the same conversion of the user's value to the
+    ICU formatter (MIR path traces, py/mirsum.py): a conversion step present in one flavour only (rounding, padding, another
+    calendar conversion) makes `t!` and `t_string!` print different text for the same arguments"""
+    import mirsum
+    from rules import c18
+    r = Rule("C02.R7", "the view / display / fmt flavours of a formatter feed the same converted value to the ICU formatter",
+             "`all denote the same text`: `{{ var, formatter }}` goes through format_X_to_view in the view flavour and format_X_to_formatter / "
+             "_to_display in the string flavours; a step applied to the value in one of them only makes the flavours diverge", floor=11)
+    prog = ctx.mir("main")
+
+    def fmt_call(t):
+        if isinstance(t, tuple):
+            if t and t[0] == "call" and re.search(r"Formatter::format\w*$", t[1]):
+                return t
+            for x in t:
+                f = fmt_call(x)
+                if f is not None:
+                    return f
+        return None
+
+    def norm(txt, names):
+        txt = re.sub(r"\bp(\d+)\.(\d+)\b", lambda m: names.get((int(m.group(1)), int(m.group(2))), m.group(0)), txt)
+        txt = re.sub(r"\bp(\d+)\b", lambda m: names.get(int(m.group(1)), m.group(0)), txt)
+        return re.sub(r"\b(?:[A-Za-z_]\w*::)+(?=[a-z_]\w*\()", "", txt)
+
+    # the view flavour receives a closure producing the value; its InputFn trait calls the closure and converts the result with the
+    # by-value twin (into_icu_X) of the conversion the string flavours apply by reference (as_icu_X): one conversion class each
+    want_fn = {"to_icu_date": "IntoIcuDate::into_icu_date(Fn::call(self, ()))", "to_icu_datetime": "IntoIcuDateTime::into_icu_datetime(Fn::call(self, ()))",
+               "to_list": "Fn::call(self, ())", "to_fixed_decimal": "IntoFixedDecimal::to_fixed_decimal(Fn::call(self, ()))", "to_icu_time": "IntoIcuTime::into_icu_time(Fn::call(self, ()))"}
+    seen_fn = {}
+    for n, bb in prog.bodies.items():
+        m = re.search(r"InputFn>::(to_\w+)$", n)
+        if m and n.startswith("<F as leptos_i18n::macro_helpers::formatting::"):
+            t = mirsum.summary(prog, bb, depth=1, args=[("cap", "self")])
+            seen_fn[m.group(1)] = (mirsum.fmt(t) if t is not None else "a branching computation", bb)
+    for name, w in sorted(want_fn.items()):
+        if name not in seen_fn:
+            r.missing("InputFn::" + name)
+        elif seen_fn[name][0] == w:
+            r.inst("InputFn::" + name, "calls the closure and converts what it returns: " + w)
+        else:
+            r.viol("R7:InputFn::%s#wrapper" % name, "the view flavour's input wrapper is `%s`, expected `%s`" % (seen_fn[name][0], w), file=seen_fn[name][1].file, line=seen_fn[name][1].line)
+    CLASS = [(r"\b(?:to|as|into)_icu_(date|time|datetime)\(", r"icu_\1("), (r"\bto_list\(([^()]*)\)", r"\1")]
+
+    for fam, (pre, _getter, _gp) in sorted(c18.ENTRY.items()):
+        got = {}
+        for kind in ("to_view", "to_display", "to_formatter"):
+            b = prog.body(c18.FMOD + pre + "_" + kind)
+            if b is None:
+                r.missing(pre + "_" + kind)
+                continue
+            names = {i: b.local_name(i) for i in range(1, b.arg_count + 1)}
+            body = b
+            t = mirsum.summary(prog, b, depth=3, args=[("cap", names[i]) for i in range(1, b.arg_count + 1)])
+            if t is not None and t[0] == "closure":
+                # the view flavour returns a closure: its body, with the captures named after what they capture
+                cbs = [x for x in prog.family(b) if x is not b and x.name.endswith(t[1])]
+                if len(cbs) != 1:
+                    r.viol("R7:%s_%s#closure" % (fam, kind), "the returned closure was not found", file=b.file, line=b.line)
+                    continue
+                body = cbs[0]
+                names = {(1, k): (c[1] if c[0] == "cap" else "<formatter>") for k, c in enumerate(t[2])}
+            ps = mirsum.paths(prog, body, depth=3)
+            vals = set()
+            for _c, trace, _ret in ps or []:
+                f = None
+                for x in trace:
+                    f = f or fmt_call(x)
+                if f is not None:
+                    v_ = ", ".join(norm(mirsum.fmt(a), names) for a in f[2][1:])
+                    for rx_, rp_ in CLASS:
+                        v_ = re.sub(rx_, rp_, v_)
+                    vals.add(v_)
+            if len(vals) != 1:
+                r.viol("R7:%s_%s#format-call" % (fam, kind), "no single call of the ICU formatter's format method was found on its paths (%s)" % sorted(vals), file=b.file, line=b.line)
+                continue
+            got[kind] = vals.pop()
+        if len(got) == 3:
+            if len(set(got.values())) == 1:
+                r.inst("format_" + fam, "all three flavours format `%s`" % got["to_view"])
+            else:
+                odd = [k for k in got if list(got.values()).count(got[k]) == 1]
+                r.viol("R7:format_%s#same-value" % fam, "the flavours format different values: " + "; ".join("%s: `%s`" % (k, got[k]) for k in sorted(got)) + (" (odd one out: %s)" % odd[0] if len(odd) == 1 else ""),
+                       file="leptos_i18n/src/macro_helpers/formatting/%s.rs" % pre.split("::")[0])
+    return r
+
+
 def run(ctx):
     # both flavours denote the text only if each of them emits every piece: the emission clauses of C01.R4 (the view
     # back-end regroups large blocs into nested tuples, the string back-end does not; decided by rules/c01.py)
@@ -356,7 +444,7 @@ def run(ctx):
     r5 = borrow(c01.r4_emission(ctx), "C02.R5", "each back-end emits every collected piece, in order",
                 "`all denote the same text`: a piece dropped by one back-end only (e.g. while regrouping a long value for the view) "
                 "makes the flavours diverge on that value", floor=3)
-    return [r1_siblings(ctx), r2_output_table(ctx), r3_input_table(ctx), r4_scoping(ctx), r5, r6_literal_text(ctx)]
+    return [r1_siblings(ctx), r2_output_table(ctx), r3_input_table(ctx), r4_scoping(ctx), r5, r6_literal_text(ctx), r7_formatter_pipeline(ctx)]
 
 
 MANIFEST_ENTRY = {
